@@ -1,0 +1,10 @@
+//go:build !verif
+
+// Package verifhook provides scheduling points for the verification harness in /verif.
+//
+// The package only does something when the module is built with the `verif` build tag;
+// without the tag Point is an empty function that the compiler inlines away.
+package verifhook
+
+// Point does nothing unless the module is built with the `verif` build tag.
+func Point(site string) {}
